@@ -23,7 +23,7 @@ NOT_APPLICABLE["C12"] = ("The quorum-waiting logic is the body of a select! bran
                          "decides BatchMaker::run for C11), first with the per-handler `waiter` futures as boxed coroutines inside FuturesUnordered, then with `waiter` "
                          "lowered to a plain struct future as well; none finished symbolic execution in 900..1000 s (a debugger backtrace of the last attempt shows "
                          "CBMC's expression simplifier working on byte extracts over deeply nested union types, i.e. the coroutine/select types the loop still "
-                         "mentions). Copying the branch body into a harness would no longer be the real code, so nothing is claimed.")
+                         "mentions). A fourth encoding (round 5) made the shim FuturesUnordered type-erased (slots of `dyn Future`), so that the never-filled `pending` container no longer carries the nested select! coroutine type into the frame: both probes (c12_acked_2, c12_acked_123) still ran into the 900 s cap (1.1 GB resident, i.e. slow symbolic execution rather than memory growth). Copying the branch body into a harness would no longer be the real code, so nothing is claimed.")
 NOT_APPLICABLE["C14"] = ("Connection::run / keep_alive are select!-based coroutines over TcpStream/Framed (same obstacle as C12, measured on the smaller "
                          "QuorumWaiter run loop: no result in 900..1000 s, as a coroutine and lowered); a scripted-I/O encoding of them was therefore not attempted beyond the design.")
 PENDING = "check not built yet in this revision (solver-based harness planned, see DESIGN.md section 4); not claimed until it runs"
